@@ -151,7 +151,8 @@ if __name__ == "__main__":
             build_simA()
             try:
                 import build_b
-                build_b.build_simB()
+                build_b.build_simB(False)
+                build_b.build_simB(True)
             except ImportError:
                 pass
         else:
